@@ -11,6 +11,8 @@ R(s) == RandomElement(s)
 RW(q) == q[RandomElement(1..Len(q))]     \* weighted choice: q lists values with multiplicity
 CondW == <<"none", "none", "none", "none", "none", "inm", "ifm-cur", "ifm-cur", "ifm-stale", "ifm-star">>
 CondOK(c) == IF c \in Conds THEN c ELSE "none"
+CkW == <<"none", "none", "none", "none", "none", "md5ok", "md5bad", "crc32ok", "crc32bad", "sha256ok", "sha256bad">>
+CkOK(c) == IF c \in CkSums THEN c ELSE "none"
 
 \* state-aware pickers: mostly hit things that exist, sometimes things that do not
 Live(St) == {b \in Buckets : St.bver[b] # "Absent"}
@@ -37,17 +39,19 @@ RandCall(op, St) ==
     [] op = "DeleteBucket"   -> [op |-> op, b |-> R(Buckets)]
     [] op = "PutVersioning"  -> [op |-> op, b |-> b, status |-> R({"Enabled", "Suspended"})]
     [] op = "PutObject"      -> [op |-> op, b |-> b, k |-> R(Keys), blob |-> R(Blobs), ctype |-> R(CTypes),
-                                 meta |-> R(MetaSets), tags |-> R(TagSets), class |-> R(Classes), cond |-> CondOK(RW(CondW))]
+                                 meta |-> R(MetaSets), tags |-> R(TagSets), class |-> R(Classes), cond |-> CondOK(RW(CondW)), cksum |-> CkOK(RW(CkW))]
     [] op = "GetObject"      -> [op |-> op, b |-> b, k |-> k, vid |-> PV(St, b, k)]
     [] op = "DeleteObject"   -> [op |-> op, b |-> b, k |-> k, vid |-> PV(St, b, k), cond |-> CondOK(RW(<<"none", "none", "none", "ifm-cur", "ifm-stale", "ifm-star">>))]
     [] op = "CopyObject"     -> [op |-> op, sb |-> sb, sk |-> sk, svid |-> PV(St, sb, sk), b |-> b,
                                  k |-> R(Keys), mdir |-> R({"COPY", "REPLACE"}), tdir |-> R({"COPY", "REPLACE"}),
                                  ctype |-> R(CTypes), meta |-> R(MetaSets), tags |-> R(TagSets), class |-> R(Classes)]
     [] op = "AppendObject"   -> [op |-> op, b |-> b, k |-> k, blob |-> R(Blobs),
-                                 off |-> RW(<<"none", "none", "match", "match", "mismatch">>)]
+                                 off |-> RW(<<"none", "none", "match", "match", "mismatch">>), cksum |-> CkOK(RW(CkW))]
     [] op = "CreateUpload"   -> [op |-> op, b |-> b, k |-> R(Keys), ctype |-> R(CTypes), meta |-> R(MetaSets),
-                                 tags |-> R(TagSets), class |-> R(Classes)]
-    [] op = "UploadPart"     -> [op |-> op, b |-> ub, k |-> uk, u |-> u, n |-> R(1..MaxParts), blob |-> R(Blobs)]
+                                 tags |-> R(TagSets), class |-> R(Classes),
+                                 cktype |-> RW(<<"none", "none", "FULL_OBJECT", "COMPOSITE">>)]
+    [] op = "UploadPart"     -> [op |-> op, b |-> ub, k |-> uk, u |-> u, n |-> R(1..MaxParts), blob |-> R(Blobs),
+                                 cksum |-> CkOK(RW(CkW))]
     [] op = "UploadPartCopy" -> [op |-> op, sb |-> sb, sk |-> sk, svid |-> PV(St, sb, sk), b |-> ub, k |-> uk,
                                  u |-> u, n |-> R(1..MaxParts)]
     [] op = "CompleteUpload" -> [op |-> op, b |-> ub, k |-> uk, u |-> u,
